@@ -5,6 +5,7 @@
 package wsp
 
 import (
+	"github.com/cnotch/ipchub/utils/simhook"
 	"bufio"
 	"bytes"
 	"fmt"
@@ -95,6 +96,7 @@ func newSession(svr *Server, conn websocket.Conn, channelID string) *Session {
 
 // 设置rtp数据通道
 func (s *Session) setDataChannel(dc websocket.Conn) {
+	simhook.BeforeLock(&s.lockW)
 	s.lockW.Lock()
 	s.dataChannel = dc
 	s.lockW.Unlock()
@@ -118,6 +120,7 @@ func (s *Session) Consume(p Pack) {
 	p2.Write(buf, s.transport.Channels[:])
 
 	var err error
+	simhook.BeforeLock(&s.lockW)
 	s.lockW.Lock()
 	if s.dataChannel != nil {
 		_, err = s.dataChannel.Write(buf.Bytes())
@@ -140,6 +143,7 @@ func (s *Session) Close() error {
 	s.closed = true
 	s.paused = false
 	s.conn.Close()
+	simhook.BeforeLock(&s.lockW)
 	s.lockW.Lock()
 	if s.dataChannel != nil {
 		s.dataChannel.Close()
